@@ -426,17 +426,23 @@ class ConstInst:
         return f"{self.ci.name}({', '.join(f'{k}={v!r}' for k, v in self.fields.items())})"
 
 
+class ConstClassRef:
+    def __init__(self, ci):
+        self.ci = ci
+
+
 class ConstEval:
     """Pure evaluator for module-level constant expressions.  Supports exactly
     the forms needed for tucan's tables; anything else raises NotConst."""
 
     SAFE_CALLS = {"range": range, "len": len, "zip": zip, "dict": dict, "list": list, "tuple": tuple,
                   "sorted": sorted, "set": set, "frozenset": frozenset, "enumerate": enumerate, "str": str,
-                  "int": int, "reversed": reversed, "min": min, "max": max, "sum": sum}
+                  "int": int, "reversed": reversed, "min": min, "max": max, "sum": sum, "slice": slice, "bool": bool, "abs": abs}
     SAFE_METHODS = {"items", "keys", "values", "get", "replace", "split", "strip", "lower", "upper", "join", "copy", "index"}
 
-    def __init__(self, repo: Repo, module: Module):
+    def __init__(self, repo: Repo, module: Module, hook=None):
         self.repo, self.m = repo, module
+        self.hook = hook        # hook(FuncInfo, args, kwargs) -> value | NotImplemented, consulted before a tucan function is interpreted
 
     def eval(self, e: ast.expr, env: dict):
         f = getattr(self, "e_" + type(e).__name__, None)
@@ -542,7 +548,12 @@ class ConstEval:
             if isinstance(recv, ConstInst):
                 if e.attr in recv.fields:
                     return recv.fields[e.attr]
+                m = self.repo.mro_method(recv.ci, e.attr)
+                if m is not None and any(norm(d).split(".")[-1] in ("property", "cached_property") for d in m.node.decorator_list):
+                    return self.call_function(m, [recv], {})
                 raise NotConst(norm(e))
+            if isinstance(recv, slice) and e.attr in ("start", "stop", "step"):
+                return getattr(recv, e.attr)
             raise NotConst(norm(e))
         r = self.repo.resolve_dotted(self.m, e)
         if r and r[0] == "const":
@@ -577,6 +588,8 @@ class ConstEval:
         return ConstInst(ci, vals)
 
     def e_Call(self, e, env):
+        if isinstance(e.func, ast.Name) and isinstance(env.get(e.func.id), ConstClassRef):
+            return self._construct(env[e.func.id].ci, [self.eval(a, env) for a in e.args], {k.arg: self.eval(k.value, env) for k in e.keywords})
         # method of a value-class instance held in a local
         if isinstance(e.func, ast.Attribute):
             root = e.func.value
@@ -604,10 +617,18 @@ class ConstEval:
             if r0 and r0[0] == "class":
                 return self._construct(r0[1], [self.eval(a, env) for a in e.args], {k.arg: self.eval(k.value, env) for k in e.keywords})
             r = self.repo.resolve_dotted(self.m, e.func) if not (isinstance(e.func, ast.Attribute) and not isinstance(e.func.value, ast.Name)) else None
-            if r and r[0] == "func" and (r[1].cls is None or (isinstance(e.func, ast.Attribute) and any(norm(d) == "staticmethod" for d in r[1].node.decorator_list))):
-                if any(isinstance(a, ast.Starred) for a in e.args) or any(k.arg is None for k in e.keywords):
+            if r and r[0] == "func" and (r[1].cls is None or (isinstance(e.func, ast.Attribute) and any(norm(d) in ("staticmethod", "classmethod") for d in r[1].node.decorator_list))):
+                if any(k.arg is None for k in e.keywords):
                     raise NotConst("star args")
-                return self.call_function(r[1], [self.eval(a, env) for a in e.args], {k.arg: self.eval(k.value, env) for k in e.keywords})
+                argv = []
+                for a in e.args:
+                    if isinstance(a, ast.Starred):
+                        argv.extend(list(self.eval(a.value, env)))
+                    else:
+                        argv.append(self.eval(a, env))
+                if r[1].cls is not None and any(norm(d) == "classmethod" for d in r[1].node.decorator_list):
+                    argv = [ConstClassRef(r[1].cls)] + argv
+                return self.call_function(r[1], argv, {k.arg: self.eval(k.value, env) for k in e.keywords})
         if isinstance(e.func, ast.Name) and e.func.id == "enumerate" and e.func.id not in env and e.keywords:
             kw = {k.arg: self.eval(k.value, env) for k in e.keywords}
             return list(enumerate(*[self.eval(a, env) for a in e.args], **kw))
@@ -766,9 +787,13 @@ class ConstEval:
         if ConstEval._depth > 6:
             raise NotConst("call depth")
         fn = fi.node
+        if self.hook is not None:
+            hv = self.hook(fi, args, kwargs)
+            if hv is not NotImplemented:
+                return hv
         if fn.args.vararg or fn.args.kwarg or any(isinstance(d, (ast.Yield, ast.YieldFrom, ast.Global, ast.Nonlocal)) for d in ast.walk(fn)):
             raise NotConst("function form")
-        sub = ConstEval(self.repo, fi.module)
+        sub = ConstEval(self.repo, fi.module, self.hook)
         env: dict = {}
         params = [a.arg for a in fn.args.posonlyargs + fn.args.args]
         defaults = fn.args.defaults
